@@ -31,9 +31,60 @@ func vPanicSite(stack string) string {
 	return "unknown"
 }
 
+// vC06R: a twin of the current pre-state that went through Marshal/Unmarshal (a node restored from a
+// snapshot).  Every entry is applied to it as well: state that Unmarshal rebuilds differently (nil maps,
+// missing derived fields) shows as a panic only there.
+var vC06R struct {
+	hist  []VEntry // kept referenced, so that its address identifies the work item
+	bytes []byte
+	inst  *VInst
+}
+
+func vC06Restored(c *VCtx) {
+	if len(c.hist) == 0 {
+		return
+	}
+	if len(vC06R.hist) != len(c.hist) || &vC06R.hist[0] != &c.hist[0] {
+		vC06R.hist, vC06R.inst, vC06R.bytes = c.hist, nil, nil
+		if b, err := VerifBuild(c.hist).Srv.Marshal(0); err == nil {
+			vC06R.bytes = b
+		}
+	}
+	if vC06R.bytes == nil {
+		return // a state that cannot be saved is C03's finding
+	}
+	if vC06R.inst == nil {
+		j := VerifNewServer()
+		if _, err := j.Unmarshal(vC06R.bytes); err != nil {
+			vC06R.bytes = nil
+			return
+		}
+		vC06R.inst = &VInst{Srv: j, Hist: append([]VEntry(nil), c.hist...)}
+		c.Count("c06_restored_twins_built")
+	}
+	st := vC06R.inst.Apply(c.Step.Entry)
+	c.Count("c06_entries_checked_on_a_restored_node")
+	if st.Panic != nil {
+		if c.Step.Panic == nil {
+			msg := fmt.Sprint(st.Panic)
+			if len(msg) > 80 {
+				msg = msg[:80]
+			}
+			c.Report(fmt.Sprintf("panic in %s (%s) on a node restored from a snapshot", vPanicSite(st.Stack), msg),
+				fmt.Sprintf("entry %s panics when the state it is applied to went through Marshal/Unmarshal first: %v", c.Step.Entry.String(), st.Panic))
+		}
+		vC06R.inst = nil
+		return
+	}
+	if c.Changed {
+		vC06R.inst = nil // the entry changed the state: the next entry starts from the pre-state again
+	}
+}
+
 func init() {
 	vMonitors["C06"] = func(c *VCtx) {
 		c.Count("c06_entries_checked")
+		vC06Restored(c)
 		if c.Step.Panic == nil {
 			return
 		}
